@@ -21,7 +21,7 @@ def run(ck):
     hit = "Invariant ImplKeepsWhatTheRuleSays is violated" in r["out"]
     ck.cov["negative_controls"] = [{"instance": "V=4, CutSetQ, BondSetQ", "Guarded": "FALSE",
                                     "invariant": "ImplKeepsWhatTheRuleSays", "violated_as_expected": hit}]
-    if not hit:
+    if not hit and not ck.selftest:    # (the self-test of the trace binding skips the pure models)
         ck.problems.append("negative control (unguarded cumulative threshold, F05) was not rejected by MC_Trunc")
     q = ck.tier == "quick"
     progs = linalg_drv.trunc_programs(ck.seed, 48 if q else 900)
